@@ -321,7 +321,18 @@ def c03_plans(tier):
 CHECKS["C03"] = make_check("C03", c03_plans,
     "every refusal transition of the bounded models (unknown log, every bad-signature rendering class, old size too large, stale, root mismatch, invalid proof, "
     "non-empty proof at size zero, over-long notes) executed from its pre-state; raw bytes of every log's checkpoint and the log list compared before/after; "
-    "returned bytes classified nil/prev/new/other; storage-failure refusals are exercised by C07's fault runs; distinct = distinct (pre-state, request, verdict) with a refusal", refusal)
+    "returned bytes classified nil/prev/new/other; the storage-failure refusal class is produced by TLC-listed fault placements (open-for-write, read, write, commit, close failing; interface and "
+    "SQL-driver level, WitnessOps fault actions) and judged by the same RefusalNoEffect formula; distinct = distinct (pre-state, request, verdict) with a refusal", refusal,
+    post_all=lambda work, rep, tier, seed: c03_faults(work, rep, tier, seed))
+
+
+def c03_faults(work, rep, tier, seed):
+    import checks_ops
+    evs, _ = checks_ops.fault_pipeline(work, rep, "quick", seed, "C03")
+    ups = [e for e in evs if e.get("e") == "update"]
+    rep.cov["evaluations"] += len(ups)
+    rep.cov["storage_failure_refusals"] = sum(1 for e in ups if e.get("fired") and e["v"] != "Accept")
+
 
 # ----------------------------------------------------------------------------- C02
 
